@@ -334,7 +334,8 @@ def c02(tier):
     out = Outcome("C02", tier, "exploration")
     cfgs = SOLVER_CFGS_QUICK if tier == "quick" else SOLVER_CFGS_ALL
     sts = [named(run_family(out, "fam_cn", cfgs, tier, limit_ms=10000, only_keys_prefix="C02"), "ground-truth"),
-           named(run_family(out, "fam_eqv", cfgs[:2] if tier == "quick" else cfgs, tier, limit_ms=10000, only_keys_prefix="C02"), "equivalence-classes")]
+           named(run_family(out, "fam_eqv", cfgs[:2] if tier == "quick" else cfgs, tier, limit_ms=10000, only_keys_prefix="C02"), "equivalence-classes"),
+           named(run_family(out, "fam_tl", cfgs[:2] if tier == "quick" else cfgs, tier, limit_ms=10000, only_keys_prefix="C02"), "planted-timelines")]
     out.coverage = fam_coverage(sts,
         "(a) ground truth: every constraint-network program of lib/fam_cn.py (all subsets of <=3 statements of the pool): when the "
         "solver answers 'unsolvable' (solve() false) or 'inconsistent' (error while reading) an independent complete procedure - "
@@ -342,11 +343,47 @@ def c02(tier):
         "by Fourier-Motzkin with strictness and disequality splitting - must find no model. (c) equivalence classes (lib/fam_eqv.py): "
         "for base programs of 2-3 statements, ALL permutations, an alpha-renaming of every identifier and each of three tautologies "
         "inserted at each position; verdicts within a class must agree. All in 2 (thorough 8) build configurations. The network-level "
-        "half (learnt no-goods are implied) is decided by C07/C09/C10. Planted-solution families for rules/timelines are part of "
-        "C03-C06's generators (a planted problem reported unsolvable is flagged there under a C02 key).")
+        "half (learnt no-goods are implied) is decided by C07/C09/C10. (b) planted solutions: every state-variable / reusable-resource "
+        "program of lib/fam_tl.py for which a reference search (all instance assignments x all orderings x Fourier-Motzkin on the "
+        "difference constraints) finds a sequential placement of all atoms must not be reported unsolvable.")
     out.assumptions = ["the reference decision procedure (lib/fam_cn.py: has_model) is complete for the two-variable linear fragment generated",
                        "timeouts are undecided"]
     return out.finish()
+
+
+TL_RULE = ("timeline families (lib/fam_tl.py): sv = `class S : StateVariable {P (duration>=1), Z}` with 1-2 instances and EVERY pair (and a fixed "
+           "slice of triples; thorough: more) of atom templates {fact,goal} x {P,Z} x {fixed instance, own instance variable} x {free, start 0/5, "
+           "[0,5], [5,10], zero-length at 5, chained to the previous atom's end}, with/without horizon bound; rr = ReusableResource capacity "
+           "1..3 with pairs/triples of Use facts {amount 1..3} x {duration 0,2,5} x {start free,0,2} x {fixed resource, own resource variable}; "
+           "basic = one fact or goal on plain Interval/Impulse predicates and on predicates of StateVariable, ReusableResource, "
+           "ConsumableResource and Agent types with one optional bound. Each program is solved in 2 (thorough 8) configurations. ")
+
+
+def tl_check(pid, tier, what, prefix, extra_fams=()):
+    out = Outcome(pid, tier, "exploration")
+    cfgs = SOLVER_CFGS_QUICK if tier == "quick" else SOLVER_CFGS_ALL
+    sts = [named(run_family(out, "fam_tl", cfgs, tier, limit_ms=10000, only_keys_prefix=prefix), "timelines")]
+    for fam in extra_fams:
+        sts.append(named(run_family(out, fam, cfgs, tier, limit_ms=10000, only_keys_prefix=prefix), fam))
+    out.coverage = fam_coverage(sts, TL_RULE + what + " distinct_nontrivial = number of distinct programs.")
+    out.assumptions = ["exact (rational, eps) comparison of the reported times; [start,end) semantics: zero-length atoms overlap nothing",
+                       "timeouts (10 s) are undecided for this property (they are violations of C18)"]
+    return out.finish()
+
+
+def c04(tier):
+    return tl_check("C04", tier, "C04 oracle: every active atom of a state-variable predicate has a decided instance; no two active atoms that can be on "
+                    "the same instance have intersecting [start,end); no segment of the extracted state-variable timeline lists more than one atom.", "C04")
+
+
+def c05(tier):
+    return tl_check("C05", tier, "C05 oracle: at every start/end pulse the amounts of the active Use atoms covering it sum to at most the capacity of their "
+                    "(decided) resource; the usage of every segment of the extracted resource timeline equals that sum.", "C05")
+
+
+def c06(tier):
+    return tl_check("C06", tier, "C06 oracle: every active atom with start/end/duration has origin <= start <= end <= horizon and duration = end - start >= 0; "
+                    "every active atom with 'at' has origin <= at <= horizon - for facts and goals, plain and smart-type predicates.", "C06")
 
 
 def c16(tier):
@@ -413,7 +450,7 @@ def c18(tier):
 
 
 # ------------------------------------------------------------------------------------------------
-PROPS = {"C01": c01, "C02": c02, "C16": c16, "C18": c18, "C15": c15, "C13": c13, "C11": lambda tier: relmc_check("C11", tier), "C12": lambda tier: relmc_check("C12", tier)}
+PROPS = {"C04": c04, "C05": c05, "C06": c06, "C01": c01, "C02": c02, "C16": c16, "C18": c18, "C15": c15, "C13": c13, "C11": lambda tier: relmc_check("C11", tier), "C12": lambda tier: relmc_check("C12", tier)}
 for _p in ("C07", "C08", "C09", "C10", "C14"):
     PROPS[_p] = (lambda pid: (lambda tier: netmc_check(pid, tier)))(_p)
 
